@@ -204,7 +204,7 @@ def gen_ops(r, inputs, timeout):
         # now and then the caller keeps ITS iterator object for the next scan (last_error not reset) ...
         # (never while a suspended scan is pending: that would be a resumption with a swapped iterator)
         prev = ops[-1].split("/") if ops else None
-        kind = "R" if prev and (prev[0] == "P" or (prev[0] in "SR" and "n" not in prev[2])) and r.random() < 0.25 else "S"
+        kind = "R" if prev and ((prev[0] == "P" and prev[1] == "c") or (prev[0] in "SR" and "n" not in prev[2])) and r.random() < 0.25 else "S"
         ops.append("%s/%d/%s/%s/%s/%d" % (kind, inp, sched, cb, stk, nofs))
         # ... in particular after a scan in which every block request of rule evaluation was answered "not ready" (F27: the scan
         # succeeds, last_error stays ERROR_BLOCK_NOT_READY): nothing of it may reach the next scan of OTHER data
